@@ -15,7 +15,7 @@ import (
 func init() {
 	register("C06", &propDef{
 		Title: "Source addresses print to strings that parse back to the same address",
-		Rules: []func(*Checker){ruleC06Ctor, ruleC06Sanitiser, ruleC06URLPath, ruleC06SubRaw, ruleC06FinalPattern, ruleC06Host, ruleC06CanonURL, aliasRuleFiltered(ruleC07Query, "C07.query", "C06.query", 1, func(o Oblig) bool { return strings.Contains(o.Key, "archive value normalised") }), ruleC06Manifest, ruleC06Print, ruleAddrErrors("C06.errors"), ruleNameAgreement("C06.names", "sourceaddrs"), ruleURLFields("C06.urlfields"), ruleLiteralAgreement("C06.fields", "sourceaddrs", nil), ruleC06QueryCut, ruleURLHostUntouched("C06.host"), ruleAllFieldsPrinted("C06.allfields"), ruleTypePrefixAfterSplit("C06.splitfirst"), ruleSubPathFromSplitterOnly("C06.splitonce"), ruleSanitisersAgree("C06.sanagree"), aliasRuleFiltered(ruleC07Routes, "C07.routes", "C06.typekept", 1, func(o Oblig) bool { return strings.Contains(o.Key, "source type registered") })},
+		Rules: []func(*Checker){ruleC06Ctor, ruleC06Sanitiser, ruleC06URLPath, ruleC06SubRaw, ruleC06FinalPattern, ruleC06Host, ruleC06CanonURL, aliasRuleFiltered(ruleC07Query, "C07.query", "C06.query", 1, func(o Oblig) bool { return strings.Contains(o.Key, "archive value normalised") }), ruleC06Manifest, ruleC06Print, ruleAddrErrors("C06.errors"), ruleNameAgreement("C06.names", "sourceaddrs"), ruleURLFields("C06.urlfields"), ruleLiteralAgreement("C06.fields", "sourceaddrs", nil), ruleC06QueryCut, ruleURLHostUntouched("C06.host"), ruleAllFieldsPrinted("C06.allfields"), ruleTypePrefixAfterSplit("C06.splitfirst"), ruleSubPathFromSplitterOnly("C06.splitonce"), ruleSanitisersAgree("C06.sanagree"), ruleTypePrefixAnchored("C06.typeprefix"), aliasRuleFiltered(ruleC07Routes, "C07.routes", "C06.typekept", 1, func(o Oblig) bool { return strings.Contains(o.Key, "source type registered") })},
 		NotDecided: []string{
 			"the round trip itself: URL escaping, fragments, case folding, registry-address normalisation are facts about string contents",
 			"idempotence of printing for every accepted spelling",
